@@ -14,17 +14,66 @@ ALL = lambda body: "all(%s for p in range(0, rows) for q in range(0, cols))" % b
 NANOK = "isnan(data[p, q]) == isnan(out[p, q])"
 POS = "isnan(data[p, q]) or out[p, q] >= 1"
 
-_C = [ALL(NANOK), ALL(POS)]
+ALL4 = lambda body: "all(%s for p in range(0, rows) for q in range(0, cols) for r in range(0, rows) for s in range(0, cols))" % body
+# soundness: cells sharing a (positive) label lie in one class of every admissible labelling comp
+SOUND = ALL4("(not (out[p, q] >= 1 and out[p, q] == out[r, s])) or comp[p, q] == comp[r, s]")
+# every cell carrying label L lies in the class of the current cell
+CLS = lambda L: ALL("out[p, q] != %s or comp[p, q] == comp[y, x]" % L)
+WIN = "all((not is_close[k]) or (area_window[k] >= 1 and all(out[p, q] != area_window[k] or comp[p, q] == comp[y, x] " \
+      "for p in range(0, rows) for q in range(0, cols))) for k in range(0, n))"
+AVM = "assigned_values_min is None or (assigned_values_min >= 1 and %s)" % CLS("assigned_values_min")
+
+# completeness: (a) after the first pass every cell shares the label of an earlier equal neighbour if it has one;
+# (b) a cell the second pass has handled agrees with all its earlier equal neighbours
+WIT = lambda rng: "all(rg_wit(out, data, p, q, n, rows, cols) for %s)" % rng
+BACK = lambda yy, xx: "all((not rg_before(p, q, %s, %s)) or isnan(data[p, q]) or rg_closed_back(out, data, p, q, n, rows, cols) " \
+    "for p in range(0, rows) for q in range(0, cols))" % (yy, xx)
+SLOT = lambda k: "out[rg_ny(n, %s, y, rows), rg_nx(n, %s, x, cols)]" % (k, k)
+J3 = "(assigned_values_min is None) == (j == 0)"
+J4 = "all(%s == assigned_values_min for i in range(0, j))" % SLOT("neighbor_matches[i]")
+J5 = "all((not is_close[k]) or %s == area_window[k] or (assigned_values_min is not None and %s == assigned_values_min) " \
+     "for k in range(0, n))" % (SLOT("k"), SLOT("k"))
+# the relabelling loops: cells already visited are mapped (S -> T), the others are as they were when the loop over y1 started
+MAPPED = lambda S, T, L: "same(out[p, q], (%s if at_entry(%d, out[p, q]) == %s else at_entry(%d, out[p, q])))" % (T, L, S, L)
+KEPT = lambda L: "same(out[p, q], at_entry(%d, out[p, q]))" % L
+
+
+def relabel(S, T, L):
+    outer = ["all(%s for p in range(0, y1) for q in range(0, cols))" % MAPPED(S, T, L),
+             "all(%s for p in range(y1, rows) for q in range(0, cols))" % KEPT(L)]
+    inner = ["all(%s for p in range(0, y1) for q in range(0, cols))" % MAPPED(S, T, L),
+             "all(%s for p in range(y1 + 1, rows) for q in range(0, cols))" % KEPT(L),
+             "all(%s for p in range(y1, y1 + 1) for q in range(0, x1))" % MAPPED(S, T, L),
+             "all(%s for p in range(y1, y1 + 1) for q in range(x1, cols))" % KEPT(L)]
+    return outer, inner
+
+
+R6, R7 = relabel("assigned_values_min", "area_val", 6)
+R8, R9 = relabel("area_val", "assigned_values_min", 8)
+HINT = " and ".join("((not (%d < n and is_close[%d])) or (0 <= wpos(neighbor_matches, %d) and wpos(neighbor_matches, %d) < neighbor_matches.shape[0] "
+                    "and neighbor_matches[wpos(neighbor_matches, %d)] == %d))" % (k, k, k, k, k, k) for k in range(8))
+
+_C = [ALL(NANOK), ALL(POS), SOUND]
+_R = _C + [WIN, "assigned_values_min is not None", "assigned_values_min >= 1", CLS("assigned_values_min"), "area_val >= 1", CLS("area_val")]
 
 Contract(
     M, "_area_connectivity", {"data": "f2", "n": "int"},
     lets=[("rows", "data.shape[0]"), ("cols", "data.shape[1]")],
-    requires=["n == 4 or n == 8"],
+    ghost_params={"comp": "i2"},
+    requires=["n == 4 or n == 8",
+              "comp.shape[0] == rows and comp.shape[1] == cols",
+              # domain: values are NaN or finite, and isclose-matching (atol 1e-8, rtol 1e-5) is equality on them
+              ALL("isnan(data[p, q]) or isfinite(data[p, q])"),
+              ALL4("rg_separated(data[p, q], data[r, s])"),
+              # comp: any labelling that does not separate n-adjacent cells of equal value
+              ALL("rg_closed_at(comp, data, p, q, n, rows, cols)")],
     result="f2",
     ensures=[
         "result.shape[0] == rows and result.shape[1] == cols",
         "all(isnan(data[p, q]) == isnan(result[p, q]) for p in range(0, rows) for q in range(0, cols))",
         "all(isnan(data[p, q]) or result[p, q] >= 1 for p in range(0, rows) for q in range(0, cols))",
+        ALL4("(not (result[p, q] >= 1 and result[p, q] == result[r, s])) or comp[p, q] == comp[r, s]"),
+        ALL("isnan(data[p, q]) or rg_closed_at(result, data, p, q, n, rows, cols)"),
     ],
     loops={
         0: LoopSpec("for", index="y", inv=[
@@ -32,6 +81,8 @@ Contract(
             "all(%s for p in range(0, y) for q in range(0, cols))" % NANOK,
             "all(isnan(data[p, q]) or (out[p, q] >= 1 and out[p, q] < uid) for p in range(0, y) for q in range(0, cols))",
             "all(out[p, q] == 0 for p in range(y, rows) for q in range(0, cols))",
+            SOUND,
+            WIT("p in range(0, y) for q in range(0, cols)"),
         ]),
         1: LoopSpec("for", index="x", inv=[
             "uid >= 1",
@@ -41,19 +92,29 @@ Contract(
             "all(isnan(data[y, q]) == isnan(out[y, q]) for q in range(0, x))",
             "all(isnan(data[y, q]) or (out[y, q] >= 1 and out[y, q] < uid) for q in range(0, x))",
             "all(out[y, q] == 0 for q in range(x, cols))",
-        ]),
+            SOUND,
+            WIT("p in range(0, y) for q in range(0, cols)"),
+            WIT("p in range(y, y + 1) for q in range(0, x)"),
+        ], cut=["rg_wit(out, data, y, x, n, rows, cols)"]),
         2: LoopSpec("for", index="j", inv=[
             "assigned_value is None",
             "all(not (area_window[neighbor_matches[i]] > 0) for i in range(0, j))",
         ]),
-        3: LoopSpec("for", index="y", inv=_C),
-        4: LoopSpec("for", index="x", inv=_C),
-        5: LoopSpec("for", index="j", inv=_C + ["assigned_values_min is None or assigned_values_min >= 1"]),
-        6: LoopSpec("for", index="y1", inv=_C),
-        7: LoopSpec("for", index="x1", inv=_C),
-        8: LoopSpec("for", index="y1", inv=_C),
-        9: LoopSpec("for", index="x1", inv=_C),
+        3: LoopSpec("for", index="y", inv=_C + [WIT("p in range(0, rows) for q in range(0, cols)"), BACK("y", "0")]),
+        4: LoopSpec("for", index="x", inv=_C + [WIT("p in range(0, rows) for q in range(0, cols)"), BACK("y", "x")],
+                    cut=["isnan(data[y, x]) or rg_closed_back(out, data, y, x, n, rows, cols)"]),
+        5: LoopSpec("for", index="j", inv=_C + [WIN, AVM, WIT("p in range(0, rows) for q in range(0, cols)"), BACK("y", "x"), J3, J4, J5],
+                    # what the rest of the cell's iteration needs: every equal neighbour in the window now carries one label
+                    post=_C + [WIT("p in range(0, rows) for q in range(0, cols)"), BACK("y", "x"),
+                               "assigned_values_min is not None or all(not is_close[k] for k in range(0, n))",
+                               "assigned_values_min is None or (%s)" % " and ".join(
+                                   "((not (%d < n and is_close[%d])) or %s == assigned_values_min)" % (k, k, SLOT(str(k))) for k in range(8))]),
+        6: LoopSpec("for", index="y1", inv=_R + R6),
+        7: LoopSpec("for", index="x1", inv=_R + R7),
+        8: LoopSpec("for", index="y1", inv=_R + R8),
+        9: LoopSpec("for", index="x1", inv=_R + R9),
     },
+    ghost={"after_assign": {"neighbor_matches": ["assert " + HINT]}},
     props=("C16",),
     native={"skip": True},
 )
